@@ -1,1 +1,17 @@
-From Arche Require Import Model.Base.
+(** C08 - Batch operations equal the same single-entity operations one by one (level:
+    partial).  Proved on the model: a batch exchange returns the number of entities in the
+    tables the filter selects at call time, and it touches only the store (the same frame as
+    the single operation).  The per-entity equality of the resulting states is decided by
+    the correspondence run against the model, whose batch moves use the same cell copy
+    ([copy_cells], Proofs/Store.v) as the single move. *)
+From Arche Require Import Model.Base Model.Filter Model.World Model.Ops Proofs.Misc Proofs.StepFrame.
+
+Theorem C08_count : forall w a add rem rel w' n evs,
+  op_batch_exchange w a add rem rel = (w', Ok (VNat n), evs) -> (add <> [] \/ rem <> []) ->
+  exists tids, arg_tables w a = Some tids /\ n = total_len w tids.
+Proof. exact batch_exchange_count. Qed.
+
+Theorem C08_frame : forall w o, touches_rr o = false -> frame_rr w (fst (fst (step w o))).
+Proof. exact step_frame_rr. Qed.
+
+Print Assumptions C08_count.
